@@ -448,13 +448,24 @@ mod helpers {
 pub type LexerResult<T> = Result<T, Error>;
 
 /// Implements a WAC lexer.
-pub struct Lexer<'a>(SpannedIter<'a, Token>);
+pub struct Lexer<'a>(SpannedIter<'a, Token>, usize);
 
 impl<'a> Lexer<'a> {
     /// Creates a new lexer for the given source string.
     pub fn new(source: &'a str) -> Result<Self, (Error, SourceSpan)> {
         detect_invalid_input(source)?;
-        Ok(Self(Token::lexer(source).spanned()))
+        Ok(Self(Token::lexer(source).spanned(), 0))
+    }
+
+    /// Enters a construct that may nest within itself and returns the new nesting depth.
+    pub(crate) fn enter(&mut self) -> usize {
+        self.1 += 1;
+        self.1
+    }
+
+    /// Leaves a construct entered with `enter`.
+    pub(crate) fn leave(&mut self) {
+        self.1 -= 1;
     }
 
     /// Gets the source string of the given span.
